@@ -66,6 +66,23 @@ CLAIMS = {
             "Replies are ASCII lines; three documented leniencies (R/RB/BL exception swallowing, "
             "reboot/bootload not recording err, query_statusbyte single read) are not asserted against.",
             "DESIGN.md §3.2, §4 C05, §5 F3 F4 F5"),
+    "C06": ("Hypothesis property test + exhaustive grids; byte-for-byte comparison of the fake port's write log "
+            "with a table of documented command formats; differential between the legacy and the EBB3 layer",
+            "Generated arguments (firmware ranges, zero/negative/absent optionals) for every helper of both "
+            "layers, compared with an independent format table and across layers; complete enumeration of "
+            "pauses -5..3000, resolutions, pins, clear values, HM positions and of motors_enable (r1,r2) x 20 "
+            "prior board states. Found one root cause on the pinned tree (repaired).",
+            "The format table is transcribed from the EBB command documentation quoted in the docstrings; "
+            "the port acknowledges everything.",
+            "DESIGN.md §4 C06, §5 F7"),
+    "C07": ("Hypothesis stateful (RuleBasedStateMachine) against a conforming legacy-syntax device model with "
+            "unique reply tokens and injected faults + exhaustive request-kind x empty-read grid",
+            "Model-based histories of legacy command/query calls with 0..100 empty reads before each reply line "
+            "and faults at any read/write; alignment is observable because every data line is unique. Found "
+            "one root cause on the pinned tree (repaired).",
+            "Device model written from the documented legacy reply shapes (data + OK, OK, single line for "
+            "a/i/mr/pi/qm/qg/v); stalls (extra reads that only cost time) are invisible.",
+            "DESIGN.md §3.2, §4 C07, §5 F8"),
 }
 
 NOT_YET = "check not built yet in this session (planned in DESIGN.md §4); not claimed until it runs green"
